@@ -748,6 +748,8 @@ def run(an: Analysis, rep):
     from . import c11
     rep.run(c11.width_rule, an, SharedRules(rep, "R09.W", "code objects that differ only in a redundant EXTENDED_ARG prefix decode to different data (shared with C11's R11.W): decoded alike, two such "
                                                           "constants of one table count as a repeated entry and both are pinned without need"), "R11.W")
+    rep.run(c02.r02f, an, SharedRules(rep, "R09.F", "the decoder's instruction function folded over witness code units (shared with C02's R02.F): an entry carries a position exactly when its "
+                                                   "index differs from its first-use rank, and the entries no instruction uses are the ones listed"))
     rep.run(c02.r026, an, shx)
     rep.run(c02.r027, an, shx)
     rep.run(c02.r028, an, shx)
